@@ -95,6 +95,12 @@ type Frame struct {
 	afterSite ssa.Instruction
 	afterKind, afterCallee string
 	afterArgs []Val
+	// callback frames (closure run in the context of a higher-order callee such as filepath.Walk)
+	cbEffect   *effect
+	cbClosure  Val
+	cbRetTo    ssa.Value
+	cbResTypes []types.Type
+	cbCallee   string
 }
 
 type deferred struct {
